@@ -99,10 +99,10 @@ PROP = dict(
     level="proof",
     release_too=True,   # thorough: half as many cases again against a release build (no overflow checks / debug assertions)
     rule="cases = stream x point family x weight family: streams main (positive integer-valued weights, 1 <= part_count <= n), "
-         "zero weights / one heavy element (the inputs that panicked before 28ccbdd), tiny weights z*2^-70 (the inputs that broke the balance bound before 70b7d46), part_count > n, max_iter = 0 and "
+         "zero weights / one heavy element (the inputs that panicked before 28ccbdd), tiny weights z*2^-70 (the inputs that broke the balance bound before 70b7d46), subnormal weights z*2^-1074 with 10..45-bit z (1e-320..1e-310), alone or next to 1-3 normal weights (a first-level slab then has a subnormal total), part_count > n, max_iter = 0 and "
          "part_count = 0 (outside the contract); points 2-D/3-D uniform, clustered, collinear, coincident, duplicate "
          "coordinates, lattice, one outlier; weights uniform, random, skewed, one heavy, few heavy, large; max_iter 1..4; "
-         "pools 1,2,4,8,16 (each case also run under one thread); distinct = distinct (D, coordinate bits, weights, "
+         "pools 1,2,4,8,16 (each case also run under one thread); concurrency stream (about 1 case in 25): the call runs 6 times in a row while one or two other MultiJagged::partition calls on other inputs do the same from their own std threads (own rayon pool or the global one), and the first output that is not the partition of the solo run (or else the first) is the one judged; distinct = distinct (D, coordinate bits, weights, "
          "part_count, max_iter, pool); non-trivial = positive weights, at least 4 points, at least 2 parts, max_iter >= 1",
     class_names=_class_names,
     trusted_base=[
@@ -115,7 +115,7 @@ PROP = dict(
         "(C11_balance_partial is about exact arithmetic; the bound is tested on every implementation output)",
     ],
     assumptions=[
-        "weights are integer-valued f64 with sums below 2^53 (every f64 sum is exact, so rayon's summation order is irrelevant)",
+        "weights are z*2^e with integer z and sums below 2^53*2^e (every f64 sum is exact, so rayon's summation order is irrelevant); in the mixed subnormal family the subnormal weights are absorbed by the normal partial sums in every order",
         "part_count < 2^24 (exactly representable in f32) and pow(x, 1) = x, 2 <= ceil(n^(1/m)) <= n for n >= 2 (checked on every scheme used)",
         "rayon's par_sort_unstable_by is a deterministic function of the slice and returns a permutation sorted by the comparator",
         "approx 0.5.1 Ulps for f64: |a-b| <= epsilon, else same sign and bit patterns within max_ulps = 4 (transcribed from the crate source; the code passes epsilon 0.0, read by the translator)",
